@@ -14,7 +14,9 @@ Definition know_sound (cfg : config) (k : know) (s : mstate) : Prop :=
   (forall o, k_acc k = Some o -> holds_in cfg LDA s o (rA s)) /\
   (forall o, k_x k = Some o -> holds_in cfg LDX s o (rX s)) /\
   (forall o, k_y k = Some o -> holds_in cfg LDY s o (rY s)) /\
-  (k_flags k = FA -> fZ s = (rA s =? 0) /\ fN s = bit7 (rA s)).
+  (k_flags k = FA -> fZ s = (rA s =? 0) /\ fN s = bit7 (rA s)) /\
+  (k_flags k = FX -> fZ s = (rX s =? 0) /\ fN s = bit7 (rX s)) /\
+  (k_flags k = FY -> fZ s = (rY s =? 0) /\ fN s = bit7 (rY s)).
 
 (** states equal on everything but the N and Z flags *)
 Definition eq_mod_nz (s s' : mstate) : Prop :=
@@ -45,3 +47,41 @@ Definition bytes_ok (s : mstate) : Prop :=
 Definition off_stack (cfg : config) (ld : mnem) (s : mstate) (o : string) : Prop :=
   forall op a md cr, parse_operand ld o = Some op -> eff_addr cfg ld s op = Some (a, md, cr) ->
                      ~ (256 <= a < 512).
+
+(** ** the look-ahead: N and Z are dead when the next instruction redefines both *)
+
+(** the two executions agree: the same fault, or the same cycles and flow and equal states *)
+Definition outcome_eq (r1 r2 : xres) : Prop :=
+  match r1, r2 with
+  | XOk s1 c1 f1, XOk s2 c2 f2 => c1 = c2 /\ f1 = f2 /\ eq_state s1 s2
+  | XFault w1, XFault w2 => w1 = w2
+  | _, _ => False
+  end.
+
+(** the same, the resulting states being compared up to N and Z *)
+Definition outcome_eq_mod_nz (r1 r2 : xres) : Prop :=
+  match r1, r2 with
+  | XOk s1 c1 f1, XOk s2 c2 f2 => c1 = c2 /\ f1 = f2 /\ eq_mod_nz s1 s2
+  | XFault w1, XFault w2 => w1 = w2
+  | _, _ => False
+  end.
+
+(** the instruction the machine executes next in straight-line code [l]: comments and removed
+    lines are skipped (they are [SSkip] for [run]); a label or inline assembly ends the search *)
+Fixpoint next_ins (l : list line) : option instr :=
+  match l with
+  | Ins j :: _ => Some j
+  | Cmt _ :: t | Dummy :: t => next_ins t
+  | _ => None
+  end.
+
+(** continue an execution that fell through with one more instruction (cycles add up) *)
+Definition then_exec (cfg : config) (r : xres) (m : mnem) (o : operand) : xres :=
+  match r with
+  | XOk s c FNext =>
+      match exec cfg m o s with
+      | XOk s' c' f => XOk s' (c + c')%N f
+      | XFault w => XFault w
+      end
+  | _ => r
+  end.
